@@ -11,6 +11,7 @@ os/open seams.
 """
 import hashlib
 import json
+import os
 import re
 
 from sim import pelgen
@@ -29,7 +30,7 @@ COMPONENTS = {"real": ["pel.peltool.peltool.main() in-process"],
               "stub": ["directory enumeration order (SimFS)", "stdout capture"]}
 ASSUMPTIONS = ["which of several files whose names contain the id --delete removes is not constrained (readdir dependent)",
                "--json without selection: which PELs get an output is not judged (C07); only names/locations of created files are"]
-PROBES = ["symlink_in_pel_dir", "delete_unusual_id", "json_second_directory", "json_clean", "dir_name_contains_id", "json_fault_fired:error", "json_fault_fired:crash_after", "delete_hit", "delete_miss", "delete_all", "json_same_dir", "json_out_dir", "nested_same_id", "id_inner_substring",
+PROBES = ["non_regular_entry", "symlink_in_pel_dir", "delete_unusual_id", "json_second_directory", "json_clean", "dir_name_contains_id", "json_fault_fired:error", "json_fault_fired:crash_after", "delete_hit", "delete_miss", "delete_all", "json_same_dir", "json_out_dir", "nested_same_id", "id_inner_substring",
           "delete_multi_match"]
 
 READ_MODES = ["-l", "-a", "-n", "-i", "--bmc-id", "--plid", "--src", "--src-exclude", "-lx", "-ax", "-f", "-fx"]
@@ -42,7 +43,7 @@ def gen_plan(rng, tier, run):
     tree = [{"path": "D/" + f["name"], "recipe": f["recipe"]} for f in files]
     eids = [f["recipe"]["eid"] for f in files]
     # nested directories, some holding PELs whose names contain top-level ids
-    for d in rng.sample(["archive", "archive/old", "sub", "x.pel", "logs"], rng.randint(0, 3)):
+    for d in rng.sample(["archive", "archive/old", "sub", "x.pel", "logs", "logs/archive"], rng.randint(0, 3)):
         tree.append({"path": "D/" + d, "dir": True})
         for _ in range(rng.randint(0, 2)):
             r = pelgen.gen_pel(rng, max_sections=2, eid=rng.choice(eids) if eids and rng.random() < 0.7 else None)
@@ -64,6 +65,11 @@ def gen_plan(rng, tier, run):
         nm = rng.choice([common.bmc_name(tgt["recipe"]), "link-%08X" % tgt["recipe"]["eid"], "current"])
         if not any(t["path"] == "D/" + nm for t in tree):
             tree.append({"path": "D/" + nm, "link_to": tgt["path"], "recipe_of_target": tgt["recipe"]})
+    if rng.random() < 0.12:
+        # entries that are neither regular files nor directories: dangling links and unix sockets, adjacent in
+        # every listing order
+        for nm in rng.choice([["zz_gone1", "zz_gone2"], ["00sock_a", "00sock_b"], ["zz_gone1", "zz_sock"]]):
+            tree.append({"path": "D/" + nm, "special": "socket" if "sock" in nm else "dangling"})
     tree.append({"path": "OUT", "dir": True})
     tree.append({"path": "E", "dir": True})                       # a second, unrelated PEL directory
     for f in common.gen_store(rng, rng.randint(0, 2), style="bmc", max_sections=2):
@@ -206,12 +212,23 @@ def execute(plan):
                 w.mkdir(real(t["path"]))
             elif "recipe" in t:
                 w.put(real(t["path"]), pelgen.build(t["recipe"]))
-            elif "link_to" in t:
+            elif "link_to" in t or "special" in t:
                 pass
             else:
                 w.put(real(t["path"]), bytes.fromhex(t["raw_hex"]))
         w.mkdir(dname)
         for t in plan["tree"]:
+            if t.get("special") == "dangling":
+                w.symlink(real(t["path"]), real("X/nowhere/" + t["path"].rsplit("/", 1)[-1]))
+                bump("non_regular_entry")
+            elif t.get("special") == "socket":
+                import socket
+                sk = socket.socket(socket.AF_UNIX)
+                try:
+                    sk.bind(w.path(real(t["path"])))
+                finally:
+                    sk.close()
+                bump("non_regular_entry")
             if "link_to" in t:
                 w.symlink(real(t["path"]), real(t["link_to"]))
                 bump("symlink_in_pel_dir")
@@ -286,7 +303,8 @@ def execute(plan):
                 top_files = sorted(p for p in before if p.startswith("D/") and "/" not in p[2:] and before[p][0] == "f")
                 if added:
                     vio.append(V("delete-all-created-files", ctx))
-                top_links = sorted(p for p in before if p.startswith("D/") and "/" not in p[2:] and before[p][0] == "l")
+                top_links = sorted(p for p in before if p.startswith("D/") and "/" not in p[2:] and before[p][0] == "l"
+                                   and before[p][2])      # dangling links are not files in any sense
                 # symbolic links directly in the directory may go or stay (not regular files, but isfile() follows
                 # them); what they point to must stay
                 if not (set(top_files) <= set(removed) <= set(top_files) | set(top_links)):
